@@ -263,9 +263,15 @@ Section Core.
   (** P A = (L U) Q *)
   Lemma recon_PA : mmul Pm A = mmul (mmul L U) Qm.
   Proof.
-    rewrite recon_A at 1. rewrite <- mmul_assoc.
-    rewrite (proj2 (pmat_orthogonal (nr A) P HlP)).
+    transitivity (mmul Pm (mmul (mtrans Pm) (mmul (mmul L U) Qm))); [f_equal; exact recon_A|].
+    rewrite <- mmul_assoc.
+    pose proof (proj2 (pmat_orthogonal (nr A) P HlP)) as Eo. fold Pm in Eo. rewrite Eo.
     apply (mmul_id_l (mmul (mmul L U) Qm)). apply wf_mmul; [apply wf_LUprod|apply wf_pmat].
+  Qed.
+
+  Lemma recon_mul Y : mmul A Y = mmul (mtrans Pm) (mmul L (mmul U (mmul Qm Y))).
+  Proof.
+    pose proof recon_A as E. apply (f_equal (fun M => mmul M Y)) in E. rewrite E. now rewrite !mmul_assoc.
   Qed.
 
   Section Sound.
@@ -282,14 +288,15 @@ Section Core.
       set (Z := mstack V (mzero (nc A - r) c)).
       assert (HZ : wf Z) by (apply wf_mstack; auto with wf).
       assert (HrZ : nr Z = nc A) by (cbn; lia).
-      rewrite recon_A at 1. rewrite !mmul_assoc. f_equal.
-      rewrite <- (mmul_assoc Qm). rewrite (proj2 (pmat_orthogonal (nc A) Q HlQ)).
+      rewrite recon_mul. f_equal.
+      rewrite <- (mmul_assoc Qm).
+      pose proof (proj2 (pmat_orthogonal (nc A) Q HlQ)) as Eo. fold Qm in Eo. rewrite Eo.
       rewrite <- HrZ at 1. rewrite mmul_id_l by assumption.
       assert (EU : mmul U Z = W).
       { rewrite U_blocks. unfold Z. rewrite mmul_concat_stack.
         - rewrite E3. replace (nc A - r) with (nc U2) by (cbn; lia).
-          rewrite mmul_zero_r by (apply wf_U2; auto). cbn [nr win msub]. rewrite Nat.sub_0_r.
-          rewrite <- HrW, <- HcW. now apply madd_zero_r.
+          rewrite mmul_zero_r by (apply wf_U2; auto).
+          replace (nr U2) with (nr W) by (cbn; lia). rewrite <- HcW. now apply madd_zero_r.
         - apply wf_unit_upper.
         - apply wf_U2; auto.
         - assumption.
@@ -319,8 +326,8 @@ Section Core.
       destruct (mstack_inj _ _ _ _ (wf_mmul _ _ (wf_unit_lower r LU) HW') HC1 ltac:(cbn; lia) EX) as [R1 R2].
       assert (EW : W' = W).
       { apply (trsm_unique_lower_left r LU); auto.
-        rewrite E1. apply mat_of_rows; auto. cbn. lia. }
-      rewrite <- EW. apply mat_of_rows; auto. cbn in *. lia.
+        rewrite E1. apply mat_of_rows; auto; cbn in *; lia. }
+      rewrite <- EW. apply mat_of_rows; auto; cbn in *; lia.
     Qed.
   End Complete.
 End Core.
